@@ -563,7 +563,7 @@ func foreignTables(repo string) (string, error) {
 		} else {
 			for _, st := range fd.Body.List {
 				line := ftSrc(lg.fset, st)
-				if rs, ok := st.(*ast.RangeStmt); ok && ftSrc(lg.fset, rs.X) == "spec.Components.Schemas" {
+				if rs, ok := st.(*ast.RangeStmt); ok && strings.Contains(ftSrc(lg.fset, rs.X), "spec.Components.Schemas") {
 					convertShape = append(convertShape, line)
 				} else if strings.Contains(line, "o.types.Sort()") || strings.HasPrefix(line, "o.types = ") {
 					convertShape = append(convertShape, line)
